@@ -21,6 +21,7 @@ CONSTANTS Alphabet,    \* the characters sources are built from
 
 A == 1  SP == 2  DQ == 3  SQ == 4  HASH == 5  BS == 6  EACUTE == 7  REF == 8  EQ == 9  RPAR == 10
 VAL == 11     \* not a source character: the substituted value of the reference
+OPT == 12     \* a whole word: an option of the instruction the string is an argument of ("-contents-of")
 
 Reserved == {<<EQ>>, <<RPAR>>}      \* the reserved words expressible over this alphabet: "=" and ")"
 
@@ -79,7 +80,10 @@ Continues == NTok >= 1 /\ IsPlain(NTok) /\ Tokens[NTok][1] = <<BS>>
 HasReserved == \E j \in 1..NTok : IsPlain(j) /\ Tokens[j][1] \in Reserved
 ListError == Unterminated \/ HasReserved
 ListValue == [j \in 1..(IF Continues THEN NTok - 1 ELSE NTok) |-> Tokens[j][1]]
-\* STRING as the last argument of an instruction: exactly one token
+\* STRING as the last argument of an instruction: exactly one token.  An UNQUOTED first word that is one of the
+\* instruction's options is that option - what follows is then not this syntax element.  A word with any quoted
+\* fragment is never an option: it denotes its characters.
+StringIsOption == NTok >= 1 /\ IsPlain(1) /\ Tokens[1][1] = <<OPT>>
 StringError == Unterminated \/ NTok # 1 \/ HasReserved
 StringValue == IF NTok >= 1 THEN Tokens[1][1] ELSE <<>>
 \* :> TEXT-UNTIL-END-OF-LINE: the rest of the line, blanks at both ends removed, references substituted, no quoting
